@@ -69,6 +69,7 @@ type Thing struct {
 	M    map[uint64]uint64
 	tmp  []uint64
 	conf int
+	tmp8 *[8]byte
 }
 
 // SHORTREAD control
@@ -176,6 +177,17 @@ func (t Thing) remember(k uint64) {
 		t.M = map[uint64]uint64{}
 	}
 	t.M[k] = k
+}
+
+// PEEKRETAIN control: the object keeps a window into the reader's buffer
+func (t *Thing) readSeed(r *bufio.Reader) error {
+	seed, err := r.Peek(8)
+	if err != nil {
+		return err
+	}
+	t.tmp8 = (*[8]byte)(seed)
+	_, err = r.Discard(8)
+	return err
 }
 
 // SHARED control: ShallowCopy shares the map M, which put() stores through
@@ -349,6 +361,12 @@ func fillAll(r io.Reader, c []byte) (n int, err error) {
 func drawSigned(v, bound *big.Int, sign int64) bool {
 	v.Mul(v, big.NewInt(2*sign-1))
 	return v.Cmp(bound) < 1
+}
+
+// DEADRING control: the transform is computed and thrown away
+func (e fixEvaluator) LoseNTT(in, buf ring.Poly) {
+	e.r.NTT(in, buf)
+	e.r.MForm(in, buf)
 }
 
 // DEGLOOP control: the last component is never negated
